@@ -603,6 +603,23 @@ theorem fastSquare_isSome_of (F : FieldOps α) (T : Transform α) (p : List α)
     obtain ⟨w, hw, _⟩ := hT.2 (v.map (fun e => F.mul e e)) (by simp [hvl])
     simp [hv, hw]
 
+/-- definedness transfers along a correspondence of transforms -/
+theorem DefinedAt.of_transMap {T : Transform α} {T' : Transform β} {f : α → β} {ok : α → Prop}
+    (M : TransMap T T' f ok) (n : Nat) (h : DefinedAt T' n) : DefinedAt T n := by
+  constructor
+  · intro xs hx
+    obtain ⟨ys', hy', hl'⟩ := h.1 (xs.map f) (by simpa using hx)
+    have := M.ntt xs
+    rw [hy'] at this
+    obtain ⟨ys, hys, rfl⟩ := Option.map_eq_some_iff.1 this
+    exact ⟨ys, hys, by simpa using hl'⟩
+  · intro xs hx
+    obtain ⟨ys', hy', hl'⟩ := h.2 (xs.map f) (by simpa using hx)
+    have := M.intt xs
+    rw [hy'] at this
+    obtain ⟨ys, hys, rfl⟩ := Option.map_eq_some_iff.1 this
+    exact ⟨ys, hys, by simpa using hl'⟩
+
 end
 
 end TF.Model.Poly.Hom
